@@ -9,14 +9,17 @@ use crate::subjects::{catalogue, Subject};
 pub mod alloc;
 pub mod bytesgen;
 pub mod corrupt;
+pub mod depth;
 pub mod frames;
+pub mod ledger;
+pub mod memlimit;
 pub mod sinks;
 pub mod skip;
 pub mod stacks;
 pub mod wire;
 
 pub fn all() -> Vec<&'static dyn Scenario> {
-    vec![&wire::Wire, &corrupt::Corrupt, &corrupt::CorruptSweep, &stacks::Stacks, &stacks::Count, &skip::Skip, &frames::Frames, &sinks::Sinks, &alloc::Alloc, &alloc::AllocMass]
+    vec![&wire::Wire, &corrupt::Corrupt, &corrupt::CorruptSweep, &stacks::Stacks, &stacks::Count, &skip::Skip, &frames::Frames, &sinks::Sinks, &alloc::Alloc, &alloc::AllocMass, &ledger::LedgerScn, &depth::Depth, &depth::DeepStack, &memlimit::MemLimit]
 }
 
 pub fn by_name(n: &str) -> Option<&'static dyn Scenario> {
